@@ -77,6 +77,10 @@ def main():
                 fn[CONST] = consts[p] / 4.0
             else:
                 consts[p] = 0
+            if rng.random() < 0.5:   # key order of the angle dict: CONST first / in the middle / last
+                items = list(fn.items())
+                rng.shuffle(items)
+                fn = dict(items)
             mapping[outs[p]] = fn
             style.append("fn")
         lm = LinearParameterMapping(ins, outs, mapping)
